@@ -186,6 +186,9 @@ class DirectoryCleanupProgress(object):
                 return False
             if current is None:
                 return False
+            if old.isdigit() and current.isdigit():
+                # level directories are not zero-padded in every layout ('2' is before '10')
+                old, current = int(old), int(current)
             if old < current:
                 return False
             if old > current:
